@@ -93,6 +93,20 @@ func (w *c06Quic) Setup(s *dsim.Sim) {
 	add("M", "M", "an")
 	add("N2", "N", "an")
 	w.pn.Rebind("an", n.conn)
+	// Without a reference the controller lets a link go 10 s after it was established
+	// (hold-open of the link directive), and the end of an old link ends the directive it
+	// shares with its same-peer replacement. In half of the runs the listener (and the
+	// dialers) hold references for their peers, as the hold-open controller or an
+	// application would, so that replacements stay up.
+	if t.Bool(1, 2, "hold-references") {
+		x := w.nodes[0]
+		for _, q := range w.nodes[1:3] {
+			_, _, _ = x.nd.Bus.AddDirective(link.NewEstablishLinkWithPeer("", q.tc.P.ID), nil)
+		}
+		for _, q := range w.nodes[1:] {
+			_, _, _ = q.nd.Bus.AddDirective(link.NewEstablishLinkWithPeer("", x.tc.P.ID), nil)
+		}
+	}
 	w.max = 3 + t.Draw(10, "max-ops")
 	w.loss = t.Draw(5, "loss-budget")
 }
